@@ -112,7 +112,28 @@ def some_function(x):
     return x
 
 
-PLAIN = {c.__name__: c for c in (P0, P1, P2, P3, P4, P5, P6, P7, P8)}
+class LateReg:
+    """only picklable through a reducer registered with copyreg AFTER pyworkers has been imported"""
+
+    def __init__(self, v):
+        self.v = v
+        import threading
+        self.lock = threading.Lock()
+
+    def __repr__(self):
+        return f'LateReg({self.v!r})'
+
+
+import copyreg as _copyreg
+_copyreg.pickle(LateReg, lambda o: (LateReg, (o.v,)))
+
+
+class H0:
+    """plain helper used as FIRST base of opt-in classes (multiple inheritance)"""
+    pass
+
+
+PLAIN = {c.__name__: c for c in (P0, P1, P2, P3, P4, P5, P6, P7, P8, H0)}
 
 
 # ---------------------------------------------------------------------------
@@ -131,6 +152,12 @@ def _state(self, remote, kind):
         return None if remote else d
     if kind == 'falsy':
         return {} if remote else d
+    if kind == 'slots_std':
+        # the standard state of a class with __slots__ and __dict__: (dict or None, {slot: value})
+        sl = {'sa': self.sa} if hasattr(self, 'sa') else {}
+        if remote:
+            d = dict(d, _via='remote') if d else d
+        return (d or None, sl)
     raise ValueError(kind)
 
 
@@ -160,7 +187,7 @@ TWIN = {}
 FEATURES = {}
 
 
-def make_pair(name, kind='dict', setstate='records', base='duck', newargs=False, parent=None, passthrough=False):
+def make_pair(name, kind='dict', setstate='records', base='duck', newargs=False, parent=None, passthrough=False, first_bases=(), slots=None):
     def r_getstate(self, remote=False):
         LOG.append(('getstate', id(self), type(self).__name__, bool(remote)))
         return _state(self, remote, kind)
@@ -209,13 +236,16 @@ def make_pair(name, kind='dict', setstate='records', base='duck', newargs=False,
         for d in (rd, td):
             d['__new__'] = __new__
             d['__getnewargs__'] = __getnewargs__
+    if slots:
+        rd['__slots__'] = tuple(slots)
+        td['__slots__'] = tuple(slots)
     if parent is not None:
-        rbases, tbases = (parent[0],), (parent[1],)
+        rbases, tbases = tuple(first_bases) + (parent[0],), tuple(first_bases) + (parent[1],)
     elif base == 'marker':
         rbases, tbases = (rp.SupportRemoteGetState,), (object,)
     else:
         rbases, tbases = (object,), (object,)
-    R = type(rbases[0])(name, rbases, dict(rd, __module__=__name__, __qualname__=name))
+    R = type(rbases[-1])(name, rbases, dict(rd, __module__=__name__, __qualname__=name))
     T = type('T' + name, tbases, dict(td, __module__=__name__, __qualname__='T' + name))
     globals()[name] = R
     globals()['T' + name] = T
@@ -240,8 +270,12 @@ _R8 = make_pair('R8', 'dict', 'records', 'duck', newargs=True)
 _R9 = make_pair('R9', 'dict', 'raises', 'duck')                              # __setstate__ raises when state['boom']
 _R10 = make_pair('R10', 'dict', 'none', 'marker')
 
+_R11 = make_pair('R11', 'slots_std', 'none', 'duck', slots=('sa', '__dict__'))  # no __setstate__, standard (dict|None, slots) state
+_R12 = make_pair('R12', None, None, 'duck', parent=_R0, first_bases=(H0,))      # remote-aware __getstate__ inherited from a NON-first base
+_R13 = make_pair('R13', None, None, 'marker', parent=_R1, first_bases=(H0,))
+
 OPTIN_NAMES = list(OPTIN)
-SAFE_OPTIN = ['R0', 'R1', 'R2', 'R3', 'R8', 'R9']     # dict state + __setstate__: the shapes C15 patches address
+SAFE_OPTIN = ['R0', 'R1', 'R2', 'R3', 'R8', 'R9', 'R12', 'R13']     # dict state + __setstate__: the shapes C15 patches address
 
 
 def is_optin_obj(o):
@@ -319,13 +353,15 @@ def _std(name):
         return NotImplemented
     if name == 'type_int':
         return int
+    if name == 'late_copyreg':
+        return LateReg(5)
     raise ValueError(name)
 
 
 STD_NAMES = ['datetime', 'date', 'timedelta', 'decimal', 'fraction', 'enum', 'dataclass', 'namedtuple', 'range', 'complex', 'exc', 'keyerror',
              'attrerror', 'oserror', 'function', 'class', 'builtin', 'regex', 'ordereddict', 'defaultdict', 'deque', 'counter', 'partial', 'uuid',
-             'array', 'bytearray', 'bytesio', 'stringio', 'slice', 'ellipsis', 'notimplemented', 'type_int']
-COPYREG_NAMES = {'regex', 'complex'}
+             'array', 'bytearray', 'bytesio', 'stringio', 'slice', 'ellipsis', 'notimplemented', 'type_int', 'late_copyreg']
+COPYREG_NAMES = {'regex', 'complex', 'late_copyreg'}
 
 
 # ---------------------------------------------------------------------------
@@ -379,6 +415,12 @@ def build(case, twin=False):
                     setattr(obj, ('a', 'b')[list(attrs).index(key) % 2], ref(k))
             elif name == 'P7':
                 pass
+            elif FEATURES.get(name, {}).get('kind') == 'slots_std':
+                items = list(attrs.items())
+                if items:
+                    obj.sa = ref(items[0][1])
+                for key, k in items[1:]:
+                    obj.__dict__[key] = ref(k)
             else:
                 for key, k in attrs.items():
                     obj.__dict__[key] = ref(k)
@@ -484,7 +526,17 @@ def walk(obj):
             stack.extend(o.values())
         elif hasattr(o, '__dict__') and not isinstance(o, type) and not callable(o):
             stack.extend(vars(o).values())
+            stack.extend(_slot_values(o))
     return list(seen.values())
+
+
+def _slot_values(o):
+    out = []
+    for c in type(o).__mro__:
+        for s_ in getattr(c, '__slots__', ()):
+            if s_ not in ('__dict__', '__weakref__') and hasattr(o, s_):
+                out.append(getattr(o, s_))
+    return out
 
 
 # ---------------------------------------------------------------------------
@@ -577,7 +629,7 @@ def walk_children_deep(o):
         if isinstance(x, dict):
             return list(x.values())
         if hasattr(x, '__dict__') and not isinstance(x, type) and not callable(x):
-            return list(vars(x).values())
+            return list(vars(x).values()) + _slot_values(x)
         return []
     stack.extend(kids(o))
     while stack:
